@@ -190,15 +190,15 @@ def check_case(rows, tier, seed, rep=None, want=None):
         fns = []
         try:
             jf = autodiff.compile_jacobian(es, V)
-            fns.append(("compile_jacobian:" + jf.__name__, lambda x, f=jf: np.asarray(f(x), dtype=float)))
+            fns.append(("compile_jacobian:" + jf.__name__, lambda x, f=InPlace(jf): np.asarray(f(x), dtype=float)))
         except Exception as ex:
             fails.add("exception:compile_jacobian:" + type(ex).__name__, V=vlab, msg=str(ex)[:200])
         if len(es) == 1:
             try:
                 gf = compiler.compile_gradient(es[0], V)
-                fns.append(("compile_gradient:" + gf.__name__, lambda x, f=gf: np.asarray(f(x), dtype=float).reshape(1, -1)))
+                fns.append(("compile_gradient:" + gf.__name__, lambda x, f=InPlace(gf): np.asarray(f(x), dtype=float).reshape(1, -1)))
                 ce = compiler.CompiledExpression(es[0], V)
-                fns.append(("CompiledExpression.gradient", lambda x, c=ce: np.asarray(c.gradient(x), dtype=float).reshape(1, -1)))
+                fns.append(("CompiledExpression.gradient", lambda x, c=InPlace(ce.gradient): np.asarray(c(x), dtype=float).reshape(1, -1)))
             except Exception as ex:
                 fails.add("exception:compile_gradient:" + type(ex).__name__, V=vlab, msg=str(ex)[:200])
         # shared objects: compile each row alone first (warms per-node memos), then the whole list, then again
@@ -207,9 +207,9 @@ def check_case(rows, tier, seed, rep=None, want=None):
             for e1 in esS:
                 autodiff.compile_jacobian([e1], VS)
             jS = autodiff.compile_jacobian(esS, VS)
-            fns.append(("shared-objects:" + jS.__name__, lambda x, f=jS: np.asarray(f(x), dtype=float)))
+            fns.append(("shared-objects:" + jS.__name__, lambda x, f=InPlace(jS): np.asarray(f(x), dtype=float)))
             jS2 = autodiff.compile_jacobian(esS, VS)
-            fns.append(("shared-objects-recompiled:" + jS2.__name__, lambda x, f=jS2: np.asarray(f(x), dtype=float)))
+            fns.append(("shared-objects-recompiled:" + jS2.__name__, lambda x, f=InPlace(jS2): np.asarray(f(x), dtype=float)))
         except Exception as ex:
             fails.add("exception:compile_jacobian-shared:" + type(ex).__name__, V=vlab, msg=str(ex)[:200])
         if rep:
